@@ -32,7 +32,7 @@ func runC13(w *World, r *Report, tier string) {
 	// ---- R1
 	for _, k := range []string{"xmpp.(*Client).Connect", "xmpp.(*Client).Resume"} {
 		f := w.Func(k)
-		conn := w.callsIn(f, "xmpp.Client.connect")
+		conn := w.callsInH(f, "xmpp.Client.connect")
 		if len(conn) != 1 {
 			r.Undecided("R1", k, w.pos(f.Pos()), "expected exactly one connect() call")
 			continue
@@ -210,7 +210,7 @@ func runC13(w *World, r *Report, tier string) {
 	// ---- R4 handler
 	run := w.Func("xmpp.(*StreamManager).Run")
 	var handler *ssa.Function
-	for _, c := range w.callsIn(run, "xmpp.StreamClient.SetHandler") {
+	for _, c := range w.callsInH(run, "xmpp.StreamClient.SetHandler") {
 		v := chanOrigin(c.Common().Args[0])
 		if mc, ok := v.(*ssa.MakeClosure); ok {
 			handler, _ = mc.Fn.(*ssa.Function)
@@ -262,7 +262,7 @@ func runC13(w *World, r *Report, tier string) {
 
 	// ---- R5 retry loop
 	res := w.Func("xmpp.(*StreamManager).resume")
-	rcalls := w.callsIn(res, "xmpp.StreamClient.Resume")
+	rcalls := w.callsInH(res, "xmpp.StreamClient.Resume")
 	if len(rcalls) != 1 {
 		r.Undecided("R5", "xmpp.(*StreamManager).resume#loop", w.pos(res.Pos()), "expected exactly one Resume() call")
 	} else {
@@ -328,7 +328,7 @@ func runC13(w *World, r *Report, tier string) {
 	// the error classification reads the Permanent flag of the very type NewConnError returns
 	{
 		ncT := w.Func("xmpp.NewConnError").Signature.Results().At(0).Type()
-		asCalls := w.callsIn(res, "golang.org/x/xerrors.As", "errors.As")
+		asCalls := w.callsInH(res, "golang.org/x/xerrors.As", "errors.As")
 		okAs := len(asCalls) == 1
 		detail := fmt.Sprintf("%d xerrors.As calls", len(asCalls))
 		if okAs {
@@ -347,7 +347,7 @@ func runC13(w *World, r *Report, tier string) {
 	}
 	// sm.connect: PostConnect once after Connect()==nil
 	smc := w.Func("xmpp.(*StreamManager).connect")
-	ccalls := w.callsIn(smc, "xmpp.Client.Connect")
+	ccalls := w.callsInH(smc, "xmpp.Client.Connect")
 	if len(ccalls) == 1 {
 		cc := ccalls[0].(*ssa.Call)
 		bad := ""
@@ -375,7 +375,7 @@ func runC13(w *World, r *Report, tier string) {
 	seq := orderedCalls(w, stop, "xmpp.StreamClient.SetHandler", "xmpp.StreamClient.Disconnect", "sync.WaitGroup.Done")
 	okStop := seq == "xmpp.StreamClient.SetHandler,xmpp.StreamClient.Disconnect,sync.WaitGroup.Done"
 	if okStop {
-		for _, c := range w.callsIn(stop, "xmpp.StreamClient.SetHandler") {
+		for _, c := range w.callsInH(stop, "xmpp.StreamClient.SetHandler") {
 			a := chanOrigin(c.Common().Args[0])
 			if !isNilConst(a) {
 				okStop = false
@@ -386,7 +386,7 @@ func runC13(w *World, r *Report, tier string) {
 	seqR := orderedCalls(w, run, "sync.WaitGroup.Add", "xmpp.StreamManager.connect", "sync.WaitGroup.Wait")
 	okRun := seqR == "sync.WaitGroup.Add,xmpp.StreamManager.connect,sync.WaitGroup.Wait"
 	// failure edge passes Done and returns the error
-	for _, c := range w.callsIn(run, "xmpp.StreamManager.connect") {
+	for _, c := range w.callsInH(run, "xmpp.StreamManager.connect") {
 		cc := c.(*ssa.Call)
 		walkPaths(after(cc), nil, nil, 2000, func(path []ssa.Instruction, end pathEnd) {
 			failed := pathAsserts(path, func(cv ssa.Value, truth bool) bool { return assertsNonNil(cv, truth, cc) })
